@@ -70,7 +70,9 @@ func (e *beyondError) Error() string {
 
 // readBack checks one node.
 func readBack(lines []string, what string, n *sig.Node) error {
-	if n.Value == "" {
+	// an empty value - or one made only of line breaks, which carry no position
+	// by design - is positioned at the node itself: only "inside the file" applies
+	if strings.TrimRight(n.Value, "\n") == "" {
 		for _, p := range n.Pos {
 			if p[0] < 1 || p[0] > len(lines) {
 				return fmt.Errorf("%s: empty value positioned on line %d outside the file", what, p[0])
@@ -488,6 +490,9 @@ func TestReplay(t *testing.T) {
 	p := vstat.ReplayPath()
 	if p == "" {
 		t.Skip("VERIF_REPLAY not set")
+	}
+	if replayFuzz(t, p) {
+		return
 	}
 	var c Case
 	if err := vstat.LoadReplay(p, &c); err != nil {
